@@ -128,6 +128,7 @@ def _outcome(ctx: Ctx, files: typing.Dict[str, str], what: str, extra_roots: typ
             except OSError:
                 continue  # the file system refuses this name (file/directory clash, too long, ...): not part of the case
         root = os.path.join(d, ROOT)
+        os.makedirs(root, exist_ok=True)  # a directory that does not exist is a documented OSError, outside this property
         try:
             res = pydsdl.read_namespace(root, [os.path.join(d, r) for r in extra_roots])
             return "model", len(res)
@@ -210,9 +211,18 @@ def check_targeted(case: typing.Any, ctx: Ctx) -> Info:
 
 def check_names(case: typing.Any, ctx: Ctx) -> Info:
     files = {}
+    bodies = ["@sealed\n", "uint8 a\n@sealed\n", "uint16 b\n@extent 64\n"]
     for i, (dirs, name) in enumerate(case["entries"]):
         rel = "/".join([ROOT] + [d_ for d_ in dirs] + [name])
-        files[rel] = "@sealed\n"
+        files[rel] = bodies[i % len(bodies)]
+    twin = case.get("twin")
+    if twin is not None:
+        # two files that designate the same (name, version): port-ID prefix or legacy extension, same or different body
+        dirs = twin["dirs"]
+        base = "/".join([ROOT] + list(dirs))
+        files[base + "/Twin.1.0.dsdl"] = bodies[0]
+        other = {0: "6200.Twin.1.0.dsdl", 1: "Twin.1.0.uavcan", 2: "6201.Twin.1.0.uavcan"}[twin["kind"] % 3]
+        files[base + "/" + other] = bodies[twin["body"] % len(bodies)]
     out = _outcome(ctx, files, "names")
     info = _classify("names", out, True)
     info.nontrivial = True
@@ -257,7 +267,8 @@ def parts(ctx: Ctx) -> typing.List[Part]:
     targeted_cases = st.fixed_dictionaries(
         {"expr": st.integers(0, len(TARGETED) - 1), "sink": st.integers(0, len(SINKS) - 1), "before": st.integers(0, 4), "newline": st.booleans(), "as_dependency": st.booleans()}
     )
-    name_cases = st.fixed_dictionaries({"entries": st.lists(st.tuples(st.lists(_dir_name(), max_size=2), _file_name()), min_size=1, max_size=3)})
+    twin = st.one_of(st.none(), st.none(), st.fixed_dictionaries({"dirs": st.lists(st.sampled_from(["sub", "x"]), max_size=1), "kind": st.integers(0, 2), "body": st.integers(0, 2)}))
+    name_cases = st.fixed_dictionaries({"entries": st.lists(st.tuples(st.lists(_dir_name(), max_size=2), _file_name()), min_size=0, max_size=3), "twin": twin})
     return [
         Part("mutation", mutation_cases, check_text, weight=5),
         Part("targeted", targeted_cases, check_targeted, weight=3),
